@@ -15,6 +15,7 @@ import (
 )
 
 type Clause struct {
+	Local bool
 	Name  string
 	Props []string
 	Expr  *SExpr
@@ -61,6 +62,8 @@ type PureFunc struct {
 	Result   *SType
 	Body     *SExpr // nil => uninterpreted
 	Src      string
+	Opaque   bool
+	Reads    []*SExpr
 }
 
 type Lemma struct {
@@ -103,7 +106,7 @@ func newContracts() *Contracts {
 }
 
 var reHeader = regexp.MustCompile(`^func\s*(\(\s*(\w+)?\s*(\*?)\s*([\w.]+)\s*\))?\s*([\w$.]+)\s*(\((.*)\))?`)
-var reClauseName = regexp.MustCompile(`^#([\w.$@-]+)\s*(\[([^\]]*)\])?\s*:\s*`)
+var reClauseName = regexp.MustCompile(`^#([\w.$@-]+)\s*(\[([^\]]*)\])?\s*(local)?\s*:\s*`)
 
 var subKeywords = map[string]bool{"props": true, "requires": true, "ensures": true, "modifies": true, "loop": true, "inline": true, "trusted": true, "flag": true, "pure": true, "ghost": true, "trusts": true}
 
@@ -116,7 +119,7 @@ type GhostAssign struct {
 	File   string
 	Line   int
 }
-var topKeywords = map[string]bool{"import": true, "func": true, "extern": true, "pure": true, "pred": true, "ghost": true, "devirt": true, "lemma": true, "axiom": true}
+var topKeywords = map[string]bool{"import": true, "func": true, "extern": true, "pure": true, "pred": true, "opaque": true, "ghost": true, "devirt": true, "lemma": true, "axiom": true}
 
 type rawLine struct {
 	text string
@@ -216,10 +219,25 @@ func (cs *Contracts) loadFile(path string, pkgPath string, isExternFile bool) er
 				}
 				cs.Funcs[fc.Key] = fc
 				cur = fc
-			case "pure", "pred":
+			case "pure", "pred", "opaque":
+				opaque := false
+				if kw == "opaque" {
+					// opaque pred ...: expanded only inside its own package; elsewhere an uninterpreted function of its
+					// arguments and of the values of its declared `reads` footprint (framing by congruence)
+					opaque = true
+					if len(fields) < 2 || (fields[1] != "pred" && fields[1] != "pure") {
+						return fail(l, "opaque pred|pure ...")
+					}
+					kw = fields[1]
+					rest = strings.TrimSpace(rest[len(fields[1]):])
+				}
 				pf, err := parsePure(rest, pkgPath, kw == "pred")
 				if err != nil {
 					return fail(l, "%v", err)
+				}
+				pf.Opaque = opaque
+				if opaque && len(pf.Reads) == 0 {
+					return fail(l, "opaque predicate needs a reads clause")
 				}
 				pf.Src = text
 				key := pureKey(pf.PkgPath, recvTypeName(pf.RecvType), pf.Name)
@@ -371,6 +389,9 @@ func parseClause(s string, l rawLine) (*Clause, error) {
 	if m[3] != "" {
 		c.Props = strings.Fields(m[3])
 	}
+	// `local`: a postcondition about the package's own representation; proved for the body, but only assumed
+	// at call sites inside the same package (callers elsewhere see the abstract clauses only)
+	c.Local = m[4] == "local"
 	c.Src = strings.TrimSpace(s[len(m[0]):])
 	e, err := parseSpecExpr(c.Src)
 	if err != nil {
@@ -518,6 +539,16 @@ func parsePure(s string, pkgPath string, isPred bool) (*PureFunc, error) {
 		}
 	}
 	rt := strings.TrimSpace(m[6])
+	// optional footprint: `reads a.f, map(m), elems(s), all(p)` between the result type and '='
+	if i := strings.Index(rt, "reads "); i >= 0 {
+		rd := strings.TrimSpace(rt[i+len("reads "):])
+		rt = strings.TrimSpace(rt[:i])
+		re, err := parseSpecExpr("f(" + rd + ")")
+		if err != nil {
+			return nil, err
+		}
+		pf.Reads = re.Args
+	}
 	if isPred && rt == "" {
 		rt = "bool"
 	}
